@@ -169,13 +169,20 @@ def materialise(p, ch, d: Path):
     if ch == "json":
         f = d / "Site.json"; f.write_text(json.dumps(prob)); return f
     if ch == "units_json":
-        f = d / "Site.json"; f.write_text(json.dumps(with_units(prob))); return f
+        q = with_units(prob)
+        if q["utilities"] and prob["utilities"][-1]["dt_cont"] == 5.0:
+            q["utilities"][-1]["dt_cont"]["value"] = None
+        f = d / "Site.json"; f.write_text(json.dumps(q)); return f
     scols = ["zone", "name", "t_supply", "t_target", "heat_flow", "dt_cont", "htc"]
     sunits = ["", "", "degC", "degC", "kW", "degC", "kW/m2/degC"]
     ucols = ["name", "type", "t_supply", "t_target", "dt_cont", "price", "htc", "heat_flow"]
     uunits = ["", "", "degC", "degC", "degC", "$/MWh", "kW/m2/degC", "kW"]
     srows = [scols, sunits] + [[s[c] for c in scols] for s in prob["streams"]]
-    urows = [ucols, uunits] + [[u[c] for c in ucols] for u in prob["utilities"]]
+    # an optional cell left blank means "use the default": the last utility's contribution, when it equals the default
+    # DT_CONT (5.0), is written as a blank cell / a null value-with-unit in the file channels (seeded change C16d)
+    def cell(u, c):
+        return None if (c == "dt_cont" and u is prob["utilities"][-1] and u["dt_cont"] == 5.0) else u[c]
+    urows = [ucols, uunits] + [[cell(u, c) for c in ucols] for u in prob["utilities"]]
     if ch in ("csvdir", "csvpair"):
         sub = d / "Site"; sub.mkdir(exist_ok=True)
         pd.DataFrame(srows).to_csv(sub / "streams.csv", header=False, index=False)
